@@ -1,4 +1,5 @@
 import HdVerif.Model.PixelPipeline
+import HdVerif.Proofs.RatFloor
 import Mathlib.Tactic.Ring
 import Mathlib.Tactic.Linarith
 import Mathlib.Tactic.FieldSimp
@@ -352,14 +353,22 @@ theorem scaledLut_eq (a : Nat) (t : List Nat) (mn mx : Nat) (lo hi : Rat) (inv :
   · simp only [Bool.false_eq_true, ↓reduceIte]; field_simp
   · simp only [↓reduceIte]; field_simp; ring
 
+theorem refVoi_lut_intZ (vfirst : Int) (a : Nat) (t : List Nat) (mn mx : Nat) (lo hi : Rat) (z : Int)
+    (hmn : listMin (a :: t) = some mn) (hmx : listMax (a :: t) = some mx) (hne : mx ≠ mn) :
+    refVoi (.lut vfirst (a :: t)) lo hi (z : Rat) =
+      (match refLookup (a :: t) vfirst z with
+       | .ok e => .ok (.val (scaledEntry mn mx lo hi false e))
+       | .error e => .error e) := by
+  simp only [refVoi, hmn, hmx, hne, ↓reduceIte, Rat.den_intCast, ne_eq, not_true_eq_false, Rat.num_intCast]
+  cases h : refLookup (a :: t) vfirst z <;> simp [scaledEntry]
+
 theorem refVoi_lut_int (vfirst : Int) (a : Nat) (t : List Nat) (mn mx : Nat) (lo hi : Rat) (v : Nat)
     (hmn : listMin (a :: t) = some mn) (hmx : listMax (a :: t) = some mx) (hne : mx ≠ mn) :
     refVoi (.lut vfirst (a :: t)) lo hi ((v : Int) : Rat) =
       (match refLookup (a :: t) vfirst (v : Int) with
        | .ok e => .ok (.val (scaledEntry mn mx lo hi false e))
-       | .error e => .error e) := by
-  simp only [refVoi, hmn, hmx, hne, ↓reduceIte, Rat.den_intCast, ne_eq, not_true_eq_false, Rat.num_intCast]
-  cases h : refLookup (a :: t) vfirst (v : Int) <;> simp [scaledEntry]
+       | .error e => .error e) :=
+  refVoi_lut_intZ vfirst a t mn mx lo hi (v : Int) hmn hmx hne
 
 /-! ### LUT descriptor / data encoding -/
 
@@ -578,5 +587,307 @@ theorem opt_find_stable {α} (pl : Placed α) (use : Bool) (n f : Nat) (hu : Uni
     intro a ha
     rw [ha] at hflag
     simp at hflag
+
+/-! ### a table read with a stride (VOI LUT behind an integer rescale) -/
+
+/-- closed form of a clipped lookup -/
+theorem refLookup_closed {α} (l : List α) (first x : Int) :
+    refLookup l first x = getIdx l (min (max x first) (first + (l.length : Int) - 1) - first) := by
+  rw [← applyLut_eq_refLookup]
+  unfold applyLut
+  rw [applyLutIndex_clip]
+
+theorem refLookup_shift {α} (l : List α) (first x : Int) : refLookup l first x = refLookup l 0 (x - first) := by
+  rw [refLookup_closed, refLookup_closed]
+  congr 1
+  omega
+
+theorem getIdx_reverse {α} (l : List α) (i : Int) (h0 : 0 ≤ i) (h1 : i < l.length) :
+    getIdx l.reverse i = getIdx l ((l.length : Int) - 1 - i) := by
+  obtain ⟨k, rfl⟩ : ∃ k : Nat, i = (k : Int) := ⟨i.toNat, by omega⟩
+  have hk : k < l.length := by omega
+  rw [getIdx_nat _ k (by simpa using hk)]
+  have : (l.length : Int) - 1 - (k : Int) = ((l.length - 1 - k : Nat) : Int) := by omega
+  rw [this, getIdx_nat _ _ (by omega)]
+  congr 1
+  simp [List.getElem_reverse]
+
+theorem refLookup_reverse {α} (l : List α) (e : Int) :
+    refLookup l.reverse 0 e = refLookup l 0 ((l.length : Int) - 1 - e) := by
+  rw [refLookup_closed, refLookup_closed]
+  cases l with
+  | nil => simp [getIdx]
+  | cons a t =>
+    have hl : ((a :: t).reverse.length : Int) = (t.length : Int) + 1 := by simp
+    have hl' : ((a :: t).length : Int) = (t.length : Int) + 1 := by simp
+    rw [getIdx_reverse _ _ (by rw [hl]; omega) (by rw [hl] at *; rw [hl']; omega)]
+    congr 1
+    rw [hl, hl']
+    omega
+
+theorem stride_eq {α} (a : α) (t : List α) (k : Nat) (hk : 1 ≤ k) :
+    stride (a :: t) k = (List.range (t.length / k + 1)).map (fun j => (a :: t).getD (j * k) a) := by
+  unfold stride
+  have hL : ((a :: t).length + k - 1) / k = t.length / k + 1 := by
+    have : (a :: t).length + k - 1 = t.length + k := by simp
+    rw [this, Nat.add_div_right _ (by omega)]
+  rw [hL, ← List.filterMap_eq_map]
+  apply List.filterMap_congr
+  intro j hj
+  have hj' : j < t.length / k + 1 := by simpa using hj
+  have : j * k < (a :: t).length := by
+    have h1 : j ≤ t.length / k := by omega
+    have h2 : j * k ≤ t.length / k * k := Nat.mul_le_mul_right k h1
+    have h3 : t.length / k * k ≤ t.length := Nat.div_mul_le_self _ _
+    simp; omega
+  simp [List.getD, List.getElem?_eq_getElem this]
+
+
+/-- the table `T[::k]` (plus `T[-1:]` when the stride skips the final entry) looked up at `d` is `T` looked up
+at `k * d`, clipping included on both sides -/
+theorem strided_lookup {α} (a : α) (t : List α) (k : Nat) (hk : 1 ≤ k) (d : Int) :
+    refLookup (stride (a :: t) k ++ (if k ≠ 1 ∧ t.length % k ≠ 0 then (a :: t).drop t.length else [])) 0 d
+      = refLookup (a :: t) 0 ((k : Int) * d) := by
+  rw [refLookup_closed, refLookup_closed, stride_eq a t k hk]
+  generalize hQ : t.length / k = Q
+  generalize hS' : (List.range (Q + 1)).map (fun j => (a :: t).getD (j * k) a) = S
+  have hS : S = (List.range (Q + 1)).map (fun j => (a :: t).getD (j * k) a) := hS'.symm
+  have hSlen : S.length = Q + 1 := by simp [hS]
+  have hdm : k * Q + t.length % k = t.length := by rw [← hQ]; exact Nat.div_add_mod t.length k
+  have hR : t.length % k < k := Nat.mod_lt _ (by omega)
+  have hlenT : ((a :: t).length : Int) = (t.length : Int) + 1 := by simp
+  have hlenT' : (a :: t).length = t.length + 1 := by simp
+  -- entries of the strided part
+  have hgetS : ∀ j : Nat, j ≤ Q → ∀ (E : List α), getIdx (S ++ E) (j : Int) = getIdx (a :: t) ((k : Int) * (j : Int)) := by
+    intro j hj E
+    have h1 : j * k ≤ Q * k := Nat.mul_le_mul_right k hj
+    have hc : Q * k = k * Q := Nat.mul_comm _ _
+    have h2 : j * k < (a :: t).length := by rw [hlenT']; omega
+    have e : (k : Int) * (j : Int) = ((j * k : Nat) : Int) := by push_cast; ring
+    have hjS : j < S.length := by omega
+    rw [e, getIdx_nat _ _ h2, getIdx_nat _ j (by rw [List.length_append]; omega)]
+    congr 1
+    rw [List.getElem_append_left hjS]
+    simp [hS, List.getD, List.getElem?_eq_getElem h2]
+  -- the clipped position in T
+  have hposT : ∀ dn : Nat, dn ≤ Q →
+      min (max ((k : Int) * (dn : Int)) 0) (0 + ((a :: t).length : Int) - 1) - 0 = (k : Int) * (dn : Int) := by
+    intro dn hdQ
+    have h1 : dn * k ≤ Q * k := Nat.mul_le_mul_right k hdQ
+    have hc : Q * k = k * Q := Nat.mul_comm _ _
+    have : (k : Int) * (dn : Int) = ((dn * k : Nat) : Int) := by push_cast; ring
+    rw [hlenT, this]; omega
+  have hposT_above : ∀ dn : Nat, Q + 1 ≤ dn →
+      min (max ((k : Int) * (dn : Int)) 0) (0 + ((a :: t).length : Int) - 1) - 0 = ((t.length : Nat) : Int) := by
+    intro dn hgt
+    have h1 : (Q + 1) * k ≤ dn * k := Nat.mul_le_mul_right k hgt
+    have hc : (Q + 1) * k = k * Q + k := by ring
+    have : (k : Int) * (dn : Int) = ((dn * k : Nat) : Int) := by push_cast; ring
+    rw [hlenT, this]; omega
+  have hposT_below : d < 0 →
+      min (max ((k : Int) * d) 0) (0 + ((a :: t).length : Int) - 1) - 0 = (k : Int) * ((0 : Nat) : Int) := by
+    intro hd0
+    have hkd : (k : Int) * d < 0 := Int.mul_neg_of_pos_of_neg (by omega) hd0
+    rw [hlenT]; push_cast; omega
+  by_cases happ : k ≠ 1 ∧ t.length % k ≠ 0
+  · -- the final entry is appended
+    rw [if_pos happ]
+    have hlen : ((S ++ (a :: t).drop t.length).length : Int) = (Q : Int) + 2 := by
+      rw [List.length_append, hSlen]; simp; omega
+    rw [hlen]
+    by_cases hd0 : d < 0
+    · have e1 : min (max d 0) (0 + ((Q : Int) + 2) - 1) - 0 = ((0 : Nat) : Int) := by omega
+      rw [e1, hposT_below hd0]
+      exact hgetS 0 (by omega) _
+    · obtain ⟨dn, rfl⟩ : ∃ dn : Nat, d = (dn : Int) := ⟨d.toNat, by omega⟩
+      by_cases hdQ : dn ≤ Q
+      · have e1 : min (max (dn : Int) 0) (0 + ((Q : Int) + 2) - 1) - 0 = (dn : Int) := by omega
+        rw [e1, hposT dn hdQ]
+        exact hgetS dn hdQ _
+      · have e1 : min (max (dn : Int) 0) (0 + ((Q : Int) + 2) - 1) - 0 = ((Q + 1 : Nat) : Int) := by omega
+        rw [e1, hposT_above dn (by omega)]
+        have hi : Q + 1 < (S ++ (a :: t).drop t.length).length := by
+          rw [List.length_append, hSlen]; simp
+        rw [getIdx_nat _ _ hi, getIdx_nat _ _ (by rw [hlenT']; omega)]
+        congr 1
+        rw [List.getElem_append_right (by omega)]
+        simp [hSlen]
+  · -- the stride ends on the final entry
+    rw [if_neg happ, List.append_nil]
+    have hdiv : t.length = Q * k := by
+      have : t.length % k = 0 := by
+        by_contra h
+        have hk1 : k = 1 := by
+          by_contra h1; exact happ ⟨h1, h⟩
+        subst hk1; omega
+      rw [this] at hdm
+      rw [Nat.mul_comm]; omega
+    have hlen : (S.length : Int) = (Q : Int) + 1 := by rw [hSlen]; simp
+    rw [hlen]
+    have hget' : ∀ j : Nat, j ≤ Q → getIdx S (j : Int) = getIdx (a :: t) ((k : Int) * (j : Int)) := by
+      intro j hj
+      have := hgetS j hj []
+      simpa using this
+    by_cases hd0 : d < 0
+    · have e1 : min (max d 0) (0 + ((Q : Int) + 1) - 1) - 0 = ((0 : Nat) : Int) := by omega
+      rw [e1, hposT_below hd0]
+      exact hget' 0 (by omega)
+    · obtain ⟨dn, rfl⟩ : ∃ dn : Nat, d = (dn : Int) := ⟨d.toNat, by omega⟩
+      by_cases hdQ : dn ≤ Q
+      · have e1 : min (max (dn : Int) 0) (0 + ((Q : Int) + 1) - 1) - 0 = (dn : Int) := by omega
+        rw [e1, hposT dn hdQ]
+        exact hget' dn hdQ
+      · have e1 : min (max (dn : Int) 0) (0 + ((Q : Int) + 1) - 1) - 0 = ((Q : Nat) : Int) := by omega
+        rw [e1, hposT_above dn (by omega), hget' Q (le_refl _)]
+        congr 1
+        rw [hdiv]; push_cast; ring
+
+theorem strided_lookup' {α} (T : List α) (hT : T ≠ []) (k : Nat) (hk : 1 ≤ k) (d : Int) :
+    refLookup (stride T k ++ (if k ≠ 1 ∧ (T.length - 1) % k ≠ 0 then T.drop (T.length - 1) else [])) 0 d
+      = refLookup T 0 ((k : Int) * d) := by
+  obtain ⟨a, t, rfl⟩ := List.exists_cons_of_ne_nil hT
+  simpa using strided_lookup a t k hk d
+
+/-! ### the translated VOI-LUT folding -/
+
+theorem rat_trunc_int (z : Int) : (if (z : Rat) < 0 then Rat.ceil (z : Rat) else Rat.floor (z : Rat)) = z := by
+  split_ifs <;> simp
+
+theorem foldVoiLut_nonint (m b : Rat) (n vfirst : Int)
+    (h : ¬ (b = ((Rat.floor b : Int) : Rat) ∧ m = ((Rat.floor m : Int) : Rat))) :
+    foldVoiLut m b n vfirst = .error .value := by
+  unfold foldVoiLut
+  have : (!(b == ((Rat.floor b : Int) : Rat) && m == ((Rat.floor m : Int) : Rat))) = true := by
+    simp only [Bool.not_eq_true', Bool.and_eq_false_imp, beq_iff_eq, beq_eq_false_iff_ne, ne_eq]
+    intro hb hm; exact h ⟨hb, hm⟩
+  simp only [this, ↓reduceIte]
+
+/-- the folding on integer slope / intercept -/
+theorem foldVoiLut_int (mi bi n vfirst : Int) :
+    foldVoiLut (mi : Rat) (bi : Rat) n vfirst =
+      (let vf := vfirst + (if mi < 0 then n - 1 else 0)
+       let q : Rat := (((vf - bi : Int)) : Rat) / (mi : Rat)
+       if q = ((Rat.floor q : Int) : Rat)
+       then .ok (decide (mi < 0), |mi|, (|mi| != 1) && (Int.fmod (n - 1) |mi| != 0), (if q < 0 then Rat.ceil q else Rat.floor q))
+       else .error .value) := by
+  unfold foldVoiLut
+  simp only [Rat.floor_intCast, Rat.ceil_intCast, ite_self, beq_self_eq_true, Bool.and_self, Bool.not_true,
+    Bool.false_eq_true, ↓reduceIte, Bool.not_false, Bool.true_and, Bool.not_not]
+  have habs : (if mi < 0 then -mi else mi) = |mi| := by
+    split_ifs with h
+    · exact (abs_of_neg h).symm
+    · exact (abs_of_nonneg (by omega)).symm
+  rw [habs]
+  by_cases hneg : mi < 0
+  · simp only [hneg, decide_true, ↓reduceIte]
+    generalize (((vfirst + (n - 1) - bi : Int)) : Rat) / (mi : Rat) = q
+    by_cases hq : q = ((Rat.floor q : Int) : Rat)
+    · have : (q == ((Rat.floor q : Int) : Rat)) = true := by simpa using hq
+      simp only [this, Bool.not_true, Bool.false_eq_true, ↓reduceIte, if_pos hq]
+    · have : (q == ((Rat.floor q : Int) : Rat)) = false := by simpa using hq
+      simp only [this, Bool.not_false, ↓reduceIte, if_neg hq]
+  · simp only [hneg, decide_false, ↓reduceIte, Bool.false_eq_true, add_zero]
+    generalize (((vfirst - bi : Int)) : Rat) / (mi : Rat) = q
+    by_cases hq : q = ((Rat.floor q : Int) : Rat)
+    · have : (q == ((Rat.floor q : Int) : Rat)) = true := by simpa using hq
+      simp only [this, Bool.not_true, Bool.false_eq_true, ↓reduceIte, if_pos hq]
+    · have : (q == ((Rat.floor q : Int) : Rat)) = false := by simpa using hq
+      simp only [this, Bool.not_false, ↓reduceIte, if_neg hq]
+
+/-- what an accepted folding returns -/
+theorem foldVoiLut_ok (m b : Rat) (n vfirst : Int) (rev : Bool) (step : Int) (app : Bool) (fo : Int) (hm : m ≠ 0)
+    (h : foldVoiLut m b n vfirst = .ok (rev, step, app, fo)) :
+    ∃ mi bi : Int, m = (mi : Rat) ∧ b = (bi : Rat) ∧ mi ≠ 0 ∧ rev = decide (mi < 0) ∧ step = |mi| ∧
+      app = ((|mi| != 1) && (Int.fmod (n - 1) |mi| != 0)) ∧
+      (vfirst + (if mi < 0 then n - 1 else 0)) - bi = mi * fo := by
+  by_cases hint : b = ((Rat.floor b : Int) : Rat) ∧ m = ((Rat.floor m : Int) : Rat)
+  · obtain ⟨hb, hmm⟩ := hint
+    generalize Rat.floor b = bi at hb
+    generalize Rat.floor m = mi at hmm
+    subst hb hmm
+    have hmi : mi ≠ 0 := by
+      intro h0; apply hm; simp [h0]
+    rw [foldVoiLut_int] at h
+    simp only at h
+    generalize hvf : (vfirst + if mi < 0 then n - 1 else 0) = vf at h ⊢
+    generalize hqq : (((vf - bi : Int)) : Rat) / (mi : Rat) = q at h
+    by_cases hq : q = ((Rat.floor q : Int) : Rat)
+    · rw [if_pos hq] at h
+      simp only [Except.ok.injEq, Prod.mk.injEq] at h
+      obtain ⟨h1, h2, h3, h4⟩ := h
+      refine ⟨mi, bi, rfl, rfl, hmi, h1.symm, h2.symm, h3.symm, ?_⟩
+      generalize hz : Rat.floor q = z at hq h4
+      have hfo : fo = z := by
+        rw [← h4, hq]
+        exact rat_trunc_int z
+      have hmiq : (mi : Rat) ≠ 0 := by exact_mod_cast hmi
+      have : (((vf - bi : Int)) : Rat) = (mi : Rat) * (z : Rat) := by
+        rw [← hq, ← hqq]; field_simp
+      rw [hfo, hvf]
+      exact_mod_cast this
+    · rw [if_neg hq] at h
+      cases h
+  · rw [foldVoiLut_nonint m b n vfirst hint] at h
+    cases h
+
+/-- core of the rescale + VOI LUT folding, on any table -/
+theorem folded_table_lookup {α} (S : List α) (hS : S ≠ []) (mi bi vfirst fo s : Int) (hmi : mi ≠ 0)
+    (hfo : (vfirst + (if mi < 0 then (S.length : Int) - 1 else 0)) - bi = mi * fo) :
+    let T := if decide (mi < 0) = true then S.reverse else S
+    let app := (|mi| != 1) && (Int.fmod ((S.length : Int) - 1) |mi| != 0)
+    refLookup (stride T |mi|.toNat ++ (if app then T.drop (T.length - 1) else [])) fo s
+      = refLookup S vfirst (mi * s + bi) := by
+  obtain ⟨k, hkabs⟩ : ∃ k : Nat, |mi| = (k : Int) := Int.eq_ofNat_of_zero_le (abs_nonneg mi)
+  rw [hkabs]
+  simp only [Int.toNat_natCast]
+  obtain ⟨T, hTdef⟩ : ∃ T, T = if decide (mi < 0) = true then S.reverse else S := ⟨_, rfl⟩
+  obtain ⟨app, happdef⟩ : ∃ app, app = (((k : Int) != 1) && (Int.fmod ((S.length : Int) - 1) (k : Int) != 0)) := ⟨_, rfl⟩
+  rw [← hTdef, ← happdef]
+  have hk : 1 ≤ k := by
+    have : 0 < |mi| := abs_pos.mpr hmi
+    omega
+  have hTlen : T.length = S.length := by
+    rw [hTdef]; split_ifs <;> simp
+  have hTne : T ≠ [] := by
+    intro h; apply hS; apply List.eq_nil_of_length_eq_zero; rw [← hTlen, h]; rfl
+  have hSpos : 1 ≤ S.length := by
+    cases S with
+    | nil => exact absurd rfl hS
+    | cons a t => simp
+  -- the Bool `app` of the translated code is the condition of `strided_lookup'`
+  have happ : (app = true) ↔ (k ≠ 1 ∧ (T.length - 1) % k ≠ 0) := by
+    rw [happdef]
+    simp only [Bool.and_eq_true, bne_iff_ne, ne_eq]
+    rw [fmod_pos _ _ (by omega), hTlen]
+    have e1 : ((S.length : Int) - 1) = ((S.length - 1 : Nat) : Int) := by omega
+    rw [e1, ← Int.natCast_mod]
+    constructor
+    · intro ⟨h1, h2⟩
+      exact ⟨by intro h; apply h1; rw [h]; rfl, by intro h; apply h2; rw [h]; rfl⟩
+    · intro ⟨h1, h2⟩
+      exact ⟨by intro h; apply h1; exact_mod_cast h, by intro h; apply h2; exact_mod_cast h⟩
+  have hif : (if app then T.drop (T.length - 1) else []) =
+      (if k ≠ 1 ∧ (T.length - 1) % k ≠ 0 then T.drop (T.length - 1) else []) := by
+    by_cases h : app = true
+    · rw [if_pos h, if_pos (happ.mp h)]
+    · rw [if_neg h, if_neg (fun hc => h (happ.mpr hc))]
+  rw [hif, refLookup_shift, strided_lookup' T hTne _ hk, refLookup_shift S vfirst]
+  by_cases hneg : mi < 0
+  · have hT : T = S.reverse := by simp [hTdef, hneg]
+    rw [hT, refLookup_reverse]
+    congr 1
+    rw [if_pos hneg] at hfo
+    rw [← hkabs, abs_of_neg hneg]
+    have : mi * fo = vfirst + ((S.length : Int) - 1) - bi := hfo.symm
+    have e : -mi * (s - fo) = -(mi * s) + mi * fo := by ring
+    rw [e, this]; ring
+  · have hT : T = S := by simp [hTdef, hneg]
+    rw [hT]
+    congr 1
+    rw [if_neg hneg] at hfo
+    rw [← hkabs, abs_of_nonneg (by omega)]
+    have : mi * fo = vfirst + 0 - bi := hfo.symm
+    have e : mi * (s - fo) = mi * s - mi * fo := by ring
+    rw [e, this]; ring
 
 end HdVerif.PixelPipelineLemmas
